@@ -16,6 +16,9 @@ package gzip
 //@   ensures [plain_is_compressed] w.Header().Get("Content-Encoding") == "" ==> result == true
 
 //@ unit gzip_response_writer frames=on props=C18 filter=`gzip\.gzipResponseWriter\)\.(WriteHeader|Write)$`
+//@ // the compressing writers add Write/WriteHeader of their own; what reaches them through embedding writes no body bytes
+//@ type gzipResponseWriter promotes Header, Hijack, Flush, CloseNotify, Push
+//@ type ResponseFilterWriter promotes Header, Hijack, Flush, CloseNotify, Push, Writer
 //@ // the compressing writer itself: committing its header always announces Content-Encoding: gzip first, and every body
 //@ // write goes through the gzip writer after the header has been committed exactly once (what the filter writer assumes)
 //@ ghost gzAnnounced int
